@@ -122,13 +122,25 @@ CopyField(h, f, h2) ==
 AVFields == {f \in FIdx : Has(f, "addvalidator")}
 AddValidator(h, v) ==
     /\ AVFields # {}
-    /\ \A f \in AVFields : IsExplicit(store[h][f]) => Len(store[h][f].s) < Fields[f].cap
+    \* only from states whose per-validator lists have known lengths below the registry limit (otherwise the call may
+    \* legitimately be refused)
+    /\ \A f \in AVFields : IsExplicit(store[h][f]) /\ Len(store[h][f].s) < Fields[f].cap
     /\ LET st == [store EXCEPT ![h] = [f \in FIdx |->
                     IF f \notin AVFields THEN store[h][f]
-                    ELSE IF ~IsExplicit(store[h][f]) THEN Opaque(Fresh(Step, f, 0))
                     ELSE Explicit(Append(store[h][f].s,
                                          IF Fields[f].name = "balances" THEN v ELSE Fresh(Step, f, Len(store[h][f].s) + 1)))]]
        IN store' = st /\ UNCHANGED <<live, nadv>> /\ Log("addvalidator", h, 0, 0, v, "", st, live)
+
+\* the compound setter RotateSyncCommittee(next): current := the old next committee, next := the given value; nothing
+\* else changes.  The two fields are the ones whose ops contain "rotatecur" / "rotatenext".
+RotCur == {f \in FIdx : Has(f, "rotatecur")}
+RotNext == {f \in FIdx : Has(f, "rotatenext")}
+Rotate(h, v) ==
+    /\ RotCur # {} /\ RotNext # {}
+    /\ LET c == CHOOSE f \in RotCur : TRUE
+           n == CHOOSE f \in RotNext : TRUE
+           st == [store EXCEPT ![h][c] = store[h][n], ![h][n] = v]
+       IN store' = st /\ UNCHANGED <<live, nadv>> /\ Log("rotate", h, 0, 0, v, "", st, live)
 
 \* the caller overwrites the memory of every argument it passed to earlier steps and of every value earlier getters
 \* returned: a state stores VALUES, so this is a no-op on every handle
@@ -153,7 +165,7 @@ Advance(h) ==
        IN store' = st /\ nadv' = nadv + 1 /\ UNCHANGED live /\ Log("advance", h, 0, 0, 0, "", st, live)
 
 Kinds == {"set", "setall", "load", "setelem", "touch", "append", "reset", "fill", "bump", "copyfield", "copy", "advance",
-          "addvalidator", "scribble"}
+          "addvalidator", "rotate", "scribble"}
 Sized(f, n) == IF n = 3 THEN Fields[f].cap ELSE IF n = 2 THEN Fields[f].len ELSE n
 
 \* all instances of one kind of step
@@ -173,6 +185,7 @@ DoKind(k) ==
            [] k = "copy"      -> \E h2 \in Handles : Copy(h, h2)
            [] k = "advance"   -> Advance(h)
            [] k = "addvalidator" -> \E v \in Vals : AddValidator(h, v)
+           [] k = "rotate"    -> \E v \in Vals : Rotate(h, v)
            [] k = "scribble"  -> h = HandleSeq[1] /\ ArgScribbled
 
 Next == \E k \in Kinds : DoKind(k)
@@ -195,7 +208,8 @@ TypeOK == /\ live \subseteq Handles /\ HandleSeq[1] \in live
 
 \* the step just logged may have touched exactly ...
 MayChange(e, h, f) ==
-    \/ e.op # "scribble" /\ e.h = h /\ (e.fi = f \/ e.op = "advance" \/ (e.op = "addvalidator" /\ Has(f, "addvalidator")))
+    \/ e.op # "scribble" /\ e.h = h /\ (e.fi = f \/ e.op = "advance" \/ (e.op = "addvalidator" /\ Has(f, "addvalidator"))
+                                          \/ (e.op = "rotate" /\ (Has(f, "rotatecur") \/ Has(f, "rotatenext"))))
     \/ e.op = "copy" /\ e.h2 = h
 \* accessors are exact and copies are independent: nothing outside the named (handle, field) changes
 Frame == hist' # hist =>
@@ -214,5 +228,12 @@ StoresGiven == hist' # hist =>
                    /\ e.op = "append" /\ IsExplicit(store[e.h][e.fi]) =>
                           store'[e.h][e.fi].s = Append(store[e.h][e.fi].s, e.v)
 StoreProperty == [][StoresGiven]_vars
+\* a rotation moves the old next committee into current and stores the given value as next
+RotateExact == hist' # hist /\ hist'[Len(hist')].op = "rotate" =>
+                 LET e == hist'[Len(hist')]
+                     c == CHOOSE f \in RotCur : TRUE
+                     n == CHOOSE f \in RotNext : TRUE
+                 IN store'[e.h][c] = store[e.h][n] /\ store'[e.h][n] = e.v
+RotateProperty == [][RotateExact]_vars
 
 =============================================================================
